@@ -1292,10 +1292,48 @@ def run_squash(case):
     return None
 
 
+_ORDER_OPS = {
+    # operators that reorder rows with a fully determined result order (a is unique)
+    "sort_ba": (lambda d: d.sort_values(["b", "a"]), lambda p: p.sort_values(["b", "a"])),
+    "sort_a_desc": (lambda d: d.sort_values("a", ascending=False), lambda p: p.sort_values("a", ascending=False)),
+    "set_index_a": (lambda d: d.set_index("a", drop=False), lambda p: p.set_index("a", drop=False).sort_index()),  # dask sorts
+}
+
+
+def run_order(case):
+    """x = reorder(df); x[pred(x)] where the predicate depends on the row order of x (D83): a filter may cross a sort,
+    set_index or shuffle only if its predicate is the same for a row wherever the row stands"""
+    import numpy as np
+    import pandas as pd
+
+    import dask_expr as dx
+
+    a = (np.arange(20, dtype="int64") * 7) % 20
+    pdf = pd.DataFrame({"a": a, "b": (a * 3) % 7})
+    df = dx.from_pandas(pdf, npartitions=case["npartitions"])
+    dfn, pfn = _ORDER_OPS[case["op"]]
+    pred = _SQUASH_PREDS[case["outer"]]
+    px = pfn(pdf)
+    want = px[pred(px)]
+    x = dfn(df)
+    q = x[pred(x)]
+    try:
+        got = q.compute()
+    except NotImplementedError as ex:
+        if "overlapping window" in str(ex):
+            return None  # documented refusal
+        raise
+    if got.a.tolist() != want.a.tolist():
+        return f"x = df.{case['op']}; x[{case['outer']}-predicate of x]: rows {got.a.tolist()} instead of {want.a.tolist()}"
+    return None
+
+
 def run_case(case):
     kind = case["kind"]
     if kind == "squash":
         return run_squash(case)
+    if kind == "order":
+        return run_order(case)
     if kind == "cross":
         # `repeat`: DiskShuffle's row order inside a partition differs from build to build (uuid keys, D11), which
         # makes the one query whose result depends on it nondeterministic; repeat until the first failure
@@ -1316,6 +1354,8 @@ def run_case(case):
 def _sig(case):
     if case["kind"] == "squash":
         return {"kind": "squash", "outer": case["outer"]}
+    if case["kind"] == "order":
+        return {"kind": "order", "op": case["op"], "outer": case["outer"]}
     if case["kind"] == "cross":
         op = case["op"]
         sh = case.get("shared", "none")
@@ -1386,6 +1426,14 @@ CORPUS = [
     {"kind": "squash", "inner": "even", "outer": "diff", "npartitions": 2},
     {"kind": "squash", "inner": "gt", "outer": "reduction", "npartitions": 3},
     {"kind": "squash", "inner": "gt", "outer": "rowlocal", "npartitions": 3},
+    # filters whose predicate depends on the row order, above operators that reorder rows (D83)
+    {"kind": "order", "op": "sort_ba", "outer": "cumsum", "npartitions": 3},
+    {"kind": "order", "op": "sort_a_desc", "outer": "cummax", "npartitions": 3},
+    {"kind": "order", "op": "set_index_a", "outer": "cumsum", "npartitions": 3},
+    {"kind": "order", "op": "sort_ba", "outer": "shift", "npartitions": 2},
+    {"kind": "order", "op": "set_index_a", "outer": "diff", "npartitions": 2},
+    {"kind": "order", "op": "sort_ba", "outer": "rowlocal", "npartitions": 3},
+    {"kind": "order", "op": "sort_ba", "outer": "reduction", "npartitions": 3},
     # x = df.shuffle(disk); x[pred].index : Index(shuffle A) masked positionally by a predicate over shuffle B
     {"kind": "cross", "op": "shuffle_disk", "tree": ["a", 4], "shared": "then_index", "repeat": 40},
 ]
